@@ -376,6 +376,15 @@ func genJsonDec(g *G, tier string, emit func(string)) {
 		}
 	}
 
+	// every byte value in each of the four digit positions of a \u escape
+	for pos := 0; pos < 4; pos++ {
+		for b := 0; b < 256; b++ {
+			d := []byte("0041")
+			d[pos] = byte(b)
+			emit(hexOrDash(append(append([]byte(`"\u`), d...), '"')))
+			emit(hexOrDash(append(append([]byte(`{"\u`), d...), []byte(`":1}`)...)))
+		}
+	}
 	em := func(b []byte) { emit(hex.EncodeToString(b)) }
 	// (a) all strings up to L over the JSON alphabet, as a prefix tree: a prefix is extended
 	// only while the decoder has not definitively rejected it
